@@ -29,8 +29,19 @@ THEOREMS = ['Props.C15.' + t for t in [
     'bounds_cowat', 'bounds_cowat_off', 'bounds_supst', 'bounds_sat', 'bounds_tsat', 'guards_calls_defined',
     'steam_fraction_in_unit', 'steam_fraction_monotone', 'regions_agree_logic',
 ]]
-LEVEL_TEXT = ''
-LEVEL_NOTE = ''
+LEVEL_TEXT = ('Proof (partial): 9 Lean theorems about definitions regenerated from t2thermo.py on every run, over the reals - the '
+              'decision logic: with range checking on cowat / supst / sat return no value IFF the state is outside the stated range (cowat: or '
+              'its internal ZP < 0 test, kept visible), with checking off the guard is vacuous; the guard of tsat; every call made inside a '
+              'range test returns a number; the separated steam fraction lies in [0,1] for all inputs and solver results and is non-decreasing '
+              'in enthalpy when steam is richer than water (one and two stages); the IFC-67 and IAPWS-97 classifiers agree below 350 degC / '
+              'above the critical temperature whenever p is not between the two saturation (B23) curves, and are None outside the same box.  '
+              'NOT provable here, evaluated by the oracle on the real code only: agreement of the two formulations within the calibrated '
+              'tolerances, the single-potential identity of the hand-expanded IFC-67 formulas (finite differences: doubles, and the translated '
+              'tree in 70-digit Decimal), tsat inverting sat (scipy fsolve), the enthalpy ordering h_steam > h_water.  Tie: AST translator + '
+              'bit-for-bit Float validation (19k requests / seed incl. separated_steam_fraction end to end, 0 disagreements).')
+LEVEL_NOTE = ('Trusted: Lean kernel (+propext, Classical.choice, Quot.sound); the translator for the step Float tree -> real tree; scipy fsolve '
+              'is a parameter of the theorems; tolerances IFC-67 vs IAPWS-97 calibrated on the pinned tree (x3 margin); IEEE rounding not '
+              'verified.  p = 0 is outside the property.  Known finding: bounds-raises:tsat:TypeError (p within 1e-9 of tsat\'s lower limit).')
 TECHNIQUE = ('Lean 4 proof of the decision logic over definitions generated from the Python source + bit-for-bit validation '
              'of the generated definitions over Float + differential oracle IFC-67 vs IAPWS-97 on the real code')
 ASSUMPTIONS = [
